@@ -144,7 +144,14 @@ func TestC07_Spellings(t *testing.T) {
 		} else {
 			e = g.Expr(rapid.IntRange(1, 3).Draw(t, "depth"))
 		}
-		c := newEvalCase("", e, root, Opts{})
+		o := Opts{}
+		switch rapid.IntRange(0, 7).Draw(t, "hook") {
+		case 0:
+			o.Hook = int(ref.HookSelf) // the value hook asks the same evaluator again while it is evaluating
+		case 1:
+			o.Hook = int(ref.HookNested)
+		}
+		c := newEvalCase("", e, root, o)
 		if p.JSON {
 			c.Datum = uni.NormalizeJSON(root)
 			c.ViaJSON, c.UseNumber = true, p.UseNumber
@@ -243,4 +250,62 @@ func TestC07_OddParts(t *testing.T) {
 		}
 	}
 	t.Logf("cases: %d", n)
+}
+
+// TestC07_Reentrant: collections reached by selectors of 1..6 parts, quantified in every
+// spelling, while the value hook re-enters the same evaluator (every k-th hook call, k drawn)
+// - so that a second activation of the same quantifier node runs in the middle of the first.
+// Elements are built so that no single element satisfies the body while a mixture of two
+// elements would. Every spelling gives the reference's answer.
+func TestC07_Reentrant(t *testing.T) {
+	r := rec(t, "C07", c07Rule+"; TestC07_Reentrant: collections at selector depth 1-6 (lists and maps), bodies with two lookups through the alias that no single element satisfies, all spellings, the hook re-entering the same evaluator every k-th call")
+	rapid.Check(t, func(t *rapid.T) {
+		strT := uni.Scalar(uni.KString)
+		depth := rapid.IntRange(1, 6).Draw(t, "pathLen")
+		nel := rapid.IntRange(2, 4).Draw(t, "elems")
+		asMap := rapid.Bool().Draw(t, "mapColl")
+		mk := func(v, w int) *uni.Node {
+			return &uni.Node{T: uni.MapOf(strT, uni.Iface()), Keys: []*uni.Node{uni.Str("v"), uni.Str("w")}, Elems: []*uni.Node{uni.InIface(uni.Int(uni.KInt, int64(v))), uni.InIface(uni.Int(uni.KInt, int64(w)))}}
+		}
+		var coll *uni.Node
+		if asMap {
+			coll = &uni.Node{T: uni.MapOf(strT, uni.Iface())}
+		} else {
+			coll = uni.List(uni.SliceOf(uni.Iface()))
+		}
+		for i := 0; i < nel; i++ {
+			// element i has v == i; w == (i+1) % nel: `v == a and w == b` holds for no element when b != (a+1) % nel
+			if asMap {
+				coll.Keys = append(coll.Keys, uni.Str("k"+strconv.Itoa(i)))
+			}
+			coll.Elems = append(coll.Elems, uni.InIface(mk(i, (i+1)%nel)))
+		}
+		names := []string{"a", "b", "c", "d", "e", "f"}
+		var parts []string
+		cur := coll
+		for d := depth - 1; d >= 0; d-- {
+			parts = append([]string{names[d]}, parts...)
+			cur = &uni.Node{T: uni.MapOf(strT, uni.Iface()), Keys: []*uni.Node{uni.Str(names[d])}, Elems: []*uni.Node{uni.InIface(cur)}}
+		}
+		root := cur
+		a := rapid.IntRange(0, nel-1).Draw(t, "a")
+		b := rapid.IntRange(0, nel-1).Draw(t, "b")
+		all := rapid.Bool().Draw(t, "all")
+		body := bx.Expr(&bx.And{L: &bx.Match{Sel: bx.Sel{Parts: []string{"x", "v"}}, Op: bx.OpEq, Lit: strconv.Itoa(a)}, R: &bx.Match{Sel: bx.Sel{Parts: []string{"x", "w"}}, Op: bx.OpEq, Lit: strconv.Itoa(b)}})
+		if all {
+			body = &bx.Or{L: &bx.Match{Sel: bx.Sel{Parts: []string{"x", "v"}}, Op: bx.OpNe, Lit: strconv.Itoa(a)}, R: &bx.Match{Sel: bx.Sel{Parts: []string{"x", "w"}}, Op: bx.OpNe, Lit: strconv.Itoa(b)}}
+		}
+		q := &bx.Quant{All: all, Sel: bx.Sel{Parts: parts}, Mode: []bx.BindMode{bx.BindValue, bx.BindBoth}[rapid.IntRange(0, 1).Draw(t, "mode")], Index: "i", Value: "x", Body: body}
+		if q.Mode == bx.BindValue {
+			q.Index = ""
+		}
+		if !asMap && q.Mode == bx.BindValue && rapid.Bool().Draw(t, "defaultMode") {
+			q.Mode = bx.BindDefault
+		}
+		every := uint32(rapid.IntRange(1, 7).Draw(t, "reenterEvery"))
+		c := newEvalCase("", q, root, Opts{Hook: int(ref.HookSelf), HookEvery: every})
+		nsp, out := c07Check(t, c, chooser(t))
+		r.Case(fmt.Sprintf("%v|%d|%d|%v|%d|%d|%v|%d", parts, nel, q.Mode, asMap, a, b, all, every), b != (a+1)%nel, map[string]string{"expr": bx.String(q), "datum": root.String(), "outcome": out.String(), "spellings": strconv.Itoa(nsp)},
+			fmt.Sprintf("path-len:%d", depth), fmt.Sprintf("map:%v", asMap))
+	})
 }
